@@ -4,6 +4,7 @@ from __future__ import annotations
 import contextlib
 import copy
 import dataclasses
+import inspect
 import io
 import math
 import warnings
@@ -47,7 +48,7 @@ FIELDS = {
 
 @st.composite
 def param_cases(draw):
-    m = draw(models.model_specs(names=draw(st.sampled_from(["ident", "free"])), n_state=(1, 3), n_control=(0, 3), n_calib=(0, 1),
+    m = draw(models.model_specs(calib_types=("float", "npfloat", "npfloat32"), names=draw(st.sampled_from(["ident", "free"])), n_state=(1, 3), n_control=(0, 3), n_calib=(0, 1),
                                 n_sensors=(1, 3), n_readings=(1, 3), depth=1, sensor_depth=1, allow_positive=False, cse=False))
     sets = {k: draw(v) for k, v in FIELDS.items()}
     names_ = draw(st.lists(st.sampled_from(sorted(FIELDS)), min_size=2, max_size=4, unique=True))
@@ -61,7 +62,7 @@ def model_fields(um):
 
 def params_equal(a, b):
     for k in ("process_noise", "sensor_models", "sensor_noises", "calibration_map", "config"):
-        if a[k] != b[k]:
+        if a[k] != b[k] or (k in ("process_noise", "sensor_noises", "calibration_map") and not models.same_values(a[k], b[k])):
             return False, k
     if model_fields(a["symbolic_model"]) != model_fields(b["symbolic_model"]):
         return False, "symbolic_model"
@@ -140,18 +141,33 @@ def param_case(spec, ctx):
             if accepted:
                 ctx.fail("unknown-parameter-accepted", f"after transform(), set_params({name}=...) is accepted although {name!r} is not a parameter", spec)
         ctx.event("unknown_names_after_use_checked")
-    with ctx.formak("flatten-roundtrip", spec):
-        ad2 = c16.make_adapter(m)
-        flat = ad2._flatten_scoring_params()
-        back = ad2._inverse_flatten_scoring_params(list(flat))
-    n_expected = len(m["control"]) + sum(len(r) for r in m["sensors"].values())
-    if len(flat) != n_expected:
-        ctx.fail("flatten-length", f"{len(flat)} values for {n_expected} noise magnitudes", spec)
-    pn = {str(k): v for k, v in back["process_noise"].items()}
-    if pn != {c_: m["process_noise"][c_] for c_ in m["control"]}:
-        ctx.fail("flatten-roundtrip:process_noise", f"{pn} vs {m['process_noise']}", spec)
-    if {k: {str(r): x for r, x in v.items()} for k, v in back["sensor_noises"].items()} != m["sensor_noises"]:
-        ctx.fail("flatten-roundtrip:sensor_noises", f"{back['sensor_noises']} vs {m['sensor_noises']}", spec)
+    # the private flatten / inverse-flatten pair behind fit (named in the property's anchors): checked when it exists in the
+    # pinned shape; a refactoring that renames or re-shapes these helpers is not a violation (fit itself is checked below)
+    ad2 = c16.make_adapter(m)
+    fl, inv = getattr(ad2, "_flatten_scoring_params", None), getattr(ad2, "_inverse_flatten_scoring_params", None)
+    try:
+        pinned_shape = (callable(fl) and callable(inv) and len(inspect.signature(fl).parameters) == 0
+                        and len(inspect.signature(inv).parameters) == 1)
+    except (TypeError, ValueError):
+        pinned_shape = False
+    if pinned_shape:
+        with ctx.formak("flatten-roundtrip", spec):
+            flat = fl()
+            back = inv(list(flat))
+        n_expected = len(m["control"]) + sum(len(r) for r in m["sensors"].values())
+        if len(flat) != n_expected:
+            ctx.fail("flatten-length", f"{len(flat)} values for {n_expected} noise magnitudes", spec)
+        if not (isinstance(back, dict) and "process_noise" in back and "sensor_noises" in back):
+            ctx.event("flatten_helpers_other_shape")
+        else:
+            pn = {str(k): v for k, v in back["process_noise"].items()}
+            if pn != {c_: m["process_noise"][c_] for c_ in m["control"]}:
+                ctx.fail("flatten-roundtrip:process_noise", f"{pn} vs {m['process_noise']}", spec)
+            if {k: {str(r): x for r, x in v.items()} for k, v in back["sensor_noises"].items()} != m["sensor_noises"]:
+                ctx.fail("flatten-roundtrip:sensor_noises", f"{back['sensor_noises']} vs {m['sensor_noises']}", spec)
+        ctx.event("flatten_roundtrip_checked")
+    else:
+        ctx.event("flatten_helpers_absent_or_other_shape")
     ctx.event("param_case")
     if len(m["control"]) >= 2 or any(len(r) >= 2 for r in m["sensors"].values()):
         ctx.nontrivial(spec)
@@ -160,7 +176,7 @@ def param_case(spec, ctx):
 
 @st.composite
 def fit_cases(draw):
-    m = draw(models.model_specs(names="ident", n_state=(1, 2), n_control=(0, 2), n_calib=(0, 1), n_sensors=(1, 2), n_readings=(1, 2),
+    m = draw(models.model_specs(calib_types=("float", "npfloat", "npfloat32"), names="ident", n_state=(1, 2), n_control=(0, 2), n_calib=(0, 1), n_sensors=(1, 2), n_readings=(1, 2),
                                 depth=2, sensor_depth=1, euler="bounded", allow_positive=False, cse=False))
     width = len(m["control"]) + sum(len(r) for r in m["sensors"].values())
     rows = draw(st.integers(6, 24))
@@ -214,7 +230,7 @@ def fit_case(spec, ctx):
         ctx.event("fit:returned:extra_validation=True")
     if out is not ad:
         ctx.fail("fit-returned-other-object", f"{type(out)}", spec)
-    if ad.symbolic_model is not snap_model or ad.sensor_models != snap["sensor_models"] or ad.calibration_map != snap["calibration_map"] or ad.config != snap["config"]:
+    if ad.symbolic_model is not snap_model or ad.sensor_models != snap["sensor_models"] or not models.same_values(ad.calibration_map, snap["calibration_map"]) or ad.config != snap["config"]:
         ctx.fail("fit-changed-definition", "symbolic_model / sensor_models / calibration_map / config differ after fit", spec)
     if {str(k) for k in ad.process_noise} != keys_pn:
         ctx.fail("fit-noise-keys:process", f"{set(ad.process_noise)} vs {keys_pn}", spec)
